@@ -18,7 +18,8 @@ EXPLANATION = ("Phase agreement: the real resolve_labels + emit are executed on 
                "equals the run address of the next emitted byte or the assembly fails -- for every start address on the live buses, every size pair. "
                "Size agreement within one environment is proved per node class (C01: every mnemonic x mode x index x width cell of the live table, "
                "`label_pass_size_is_emitted_size`; C05 branches; C07 data and binary nodes; C18 text nodes); label "
-               "definition and named-scope export are under contract.  Whole programs (nesting, macros, loops, moves, bank crossings) are the bounded part.")
+               "definition and named-scope export are under contract.  Whole programs (nesting, macros, loops, moves, bank crossings) are the bounded part."
+               "  Also: every append_scope / append_internal_scope / append_named_scope creates a FRESH scope object with its own containers (labels of same-named sibling scopes never merge), and a value node re-evaluates its expression at every get_value() (the label pass's early width guess does not stick to emission).")
 TRUSTED = ["vf/specs/progmodel.py (TwoPhaseNode / MarkerNode protocol models)"]
 ASSUMPTIONS = ["the phase-agreement obligation is stated on a 4-node program shape with an arbitrary node X; that it extends to arbitrary node lists is the "
                "loop argument of C03 (same invariant) -- argued, not machine-checked here",
